@@ -632,6 +632,8 @@ def identical(it, a, b):
         return a == b and type(a) is type(b)
     if isinstance(a, (VList, VDict, VSet, VObj, VFunc, VClass)) or isinstance(b, (VList, VDict, VSet, VObj, VFunc, VClass)):
         return a is b
+    if isinstance(a, VComp) and isinstance(b, VComp):
+        return mkbool(a.ref == b.ref)       # protocol components: identity is the opaque reference
     return veq(a, b)
 
 
@@ -1069,7 +1071,11 @@ def list_method(it, l, name, args, kwargs, line=None):
             return None
         if args[0] == 0:
             l.make_symbolic()
-            l.seq = z3.Concat(z3.Unit(lift(args[1])), l.seq)
+            et = pv.elem_term(l, args[1])
+            if et is None:
+                l.seq, l.elem = l.to_seq(), 'any'
+                et = lift(args[1])
+            l.seq = z3.Concat(z3.Unit(et), l.seq)
             return None
         raise Unsupported('list.insert on a symbolic list')
     if name == 'remove':
@@ -1083,7 +1089,16 @@ def list_method(it, l, name, args, kwargs, line=None):
                 if e is not False:
                     raise Unsupported('list.remove with symbolic equality')
             it.raise_py('ValueError', 'list.remove(x): x not in list', line)
-        raise Unsupported('list.remove on a symbolic list')
+        # symbolic list: either x is not an element (ValueError) or some list one element shorter results; which
+        # elements stay, and in which order, is not modelled (over-approximation: any contents)
+        et = pv.elem_term(l, args[0])
+        if et is None or not ctx.branch(z3.Contains(l.seq, z3.Unit(et)), 'list.remove@%s' % line):
+            it.raise_py('ValueError', 'list.remove(x): x not in list', line)
+        n0 = z3.Length(l.seq)
+        l.seq = ctx.fresh(l.seq.sort(), 'removed')
+        ctx.assume(z3.Length(l.seq) == n0 - 1)
+        ctx.note('list.remove on a symbolic list: contents of the result are left unconstrained')
+        return None
     if name == 'copy':
         return VList(list(l.items)) if not l.symbolic else VList(seq=l.seq, elem=l.elem)
     if name == 'index':
@@ -1526,7 +1541,10 @@ def b_list(it, args, kwargs):
     if isinstance(v, VSet):
         return VList(seq=pv.members_facts(it.ctx, v.to_arr(), True))
     if isinstance(v, VSeqIter) or (isinstance(v, VList) and v.symbolic):
-        return VList(seq=v.seq, elem=v.elem)
+        r = VList(seq=v.seq, elem=v.elem)
+        if hasattr(v, 'wrap'):
+            r.wrap = v.wrap             # a copy of a list of protocol components holds the same components
+        return r
     return VList(seq=it.seq_term(v))
 
 
@@ -1811,6 +1829,14 @@ def sf_pre(it, e, env):
     raise Unsupported('pre(%s) outside a loop invariant' % ast.unparse(e.args[0]))
 
 
+def sf_prev(it, e, env):
+    key = ast.dump(e.args[0])
+    for fr in reversed(getattr(it, 'prev_frames', [])):
+        if key in fr:
+            return fr[key]
+    raise Unsupported('prev(%s) outside a loop step clause' % ast.unparse(e.args[0]))
+
+
 def _quant(it, e, env, universal):
     from .interp import Env
     ctx = it.ctx
@@ -1981,7 +2007,7 @@ def sf_ite(it, e, env):
     return ite(it, c.t, it.eval(e.args[1], env), it.eval(e.args[2], env))
 
 
-SPEC_FORMS = {'old': sf_old, 'pre': sf_pre, 'forall': sf_forall, 'exists': sf_exists, 'implies': sf_implies,
+SPEC_FORMS = {'old': sf_old, 'pre': sf_pre, 'prev': sf_prev, 'forall': sf_forall, 'exists': sf_exists, 'implies': sf_implies,
               'iff': sf_iff, 'ite': sf_ite}
 
 
@@ -2103,6 +2129,61 @@ def sp_concat(it, args, kwargs):
     return VSeqIter(z3.Concat(*[it.seq_term(a) for a in args]))
 
 
+seq_elems = z3.Function('seq_elems', z3.SeqSort(z3.StringSort()), pv.PVSetS)
+seq_elems_pv = z3.Function('seq_elems_pv', pv.PVSeq, pv.PVSetS)
+
+
+def members_of(ctx, seq):
+    """The set of elements of a sequence of strings, as a set term.  seq_elems is uninterpreted; the facts added here
+    are its definition ( x in seq_elems(s)  iff  x == s[i] for some index i ) unfolded along the structure of the
+    term: empty, unit, concatenation (list.extend / append), s[1:] (list.pop(0)), and  s[i] in seq_elems(s)  for
+    opaque sequences.  Used instead of seq.contains, which the solvers handle badly under quantifiers."""
+    seq = pv.ssimp(seq)
+    memo = ctx.ghost.setdefault('__elems__', {})
+    hit = memo.get(seq.get_id())
+    if hit is not None:
+        return hit[0]
+    kd = seq.decl().kind() if z3.is_app(seq) else None
+    untyped = seq.sort() == pv.PVSeq
+    key = (lambda t: pv.kenc_t(t)) if untyped else (lambda t: t)
+    if kd == z3.Z3_OP_SEQ_EMPTY:
+        r = pv.EMPTY_SET
+    elif kd == z3.Z3_OP_SEQ_UNIT:
+        r = z3.Store(pv.EMPTY_SET, key(seq.arg(0)), z3.BoolVal(True))
+    elif untyped and kd == z3.Z3_OP_SEQ_MAP and 'PStr(' in str(seq.arg(0)) and seq.arg(1).sort() != pv.PVSeq:
+        r = members_of(ctx, seq.arg(1))         # the untyped image of a list of strings
+    elif kd == z3.Z3_OP_SEQ_CONCAT:
+        r = None
+        for c in seq.children():
+            m = members_of(ctx, c)
+            r = m if r is None else z3.SetUnion(r, m)
+    else:
+        r = seq_elems_pv(seq) if untyped else seq_elems(seq)
+        qi = z3.Const('q.ei.7', z3.IntSort())
+        ctx.assume(z3.ForAll([qi], z3.Implies(z3.And(qi >= 0, qi < z3.Length(seq)), r[key(seq[qi])])))
+        ctx.assume(z3.Implies(z3.Length(seq) == 0, r == pv.EMPTY_SET))
+        if kd == z3.Z3_OP_SEQ_EXTRACT:
+            base, lo, ln = seq.arg(0), seq.arg(1), seq.arg(2)
+            if z3.is_int_value(lo) and lo.as_long() == 1 and \
+                    z3.simplify(ln == z3.Length(base) - 1) is not None and z3.is_true(z3.simplify(ln == z3.Length(base) - 1)):
+                mb = members_of(ctx, base)
+                ctx.assume(z3.Implies(z3.Length(base) > 0, mb == z3.Store(r, key(base[0]), z3.BoolVal(True))))
+    memo[seq.get_id()] = (r, seq)
+    return r
+
+
+def sp_members(it, args, kwargs):
+    """members(l): the set of elements of a list / tuple of strings"""
+    v = args[0]
+    if isinstance(v, (VList, VSeqIter)) and getattr(v, 'seq', None) is not None:
+        return VSet(arr=members_of(it.ctx, v.seq))
+    if isinstance(v, VList) and not v.symbolic:
+        terms = [pv.elem_term(VSeqIter(None, elem='str'), x) for x in v.items]
+        if all(t is not None for t in terms):
+            return VSet(arr=members_of(it.ctx, pv.seq_of(terms) if terms else z3.Empty(z3.SeqSort(z3.StringSort()))))
+    raise Unsupported('members() of %r' % (v,))
+
+
 def sp_same(it, args, kwargs):
     """same(a, b): structural equality of the by-value images."""
     a, b = args
@@ -2160,4 +2241,5 @@ SPEC_FUNCS = {
     'is_num': sp_is_num, 'is_exc': sp_is_exc, 'truthy': sp_truthy, 'is_none': sp_is_none, 'is_str': sp_is_str, 'is_int': sp_is_int,
     'absent': sp_absent, 'matches': sp_matches, 'py_int': sp_py_int, 'py_int_base': sp_py_int_base,
     'py_replace': sp_replace, 'seq': sp_seq, 'concat': sp_concat, 'same': sp_same, 'fld': sp_fld,
+    'members': sp_members,
 }
